@@ -219,3 +219,69 @@ package atree
 //@   requires storage != nil
 //@   modifies heap, ghost.sto, ghost.stored, ghost.touched, ghost.notified, alloc
 //@   loop 1: invariant 0 <= i && i <= len(data) && len(elements) == len(data) && elementSize == sum(bs, elements, i) && (forall k :: 0 <= k && k < i ==> elements[k] != nil)
+
+//@ # ---------------------------------------------------------------- array.go: NewArrayFromBatchData (C05, C06, C17)
+//@ # The element stream is packed into a chain of leaves; each leaf is closed when it has reached the target size.
+
+//@ # the provider is caller code: it does not write atree slabs, and a value it hands out is rooted (if at all) in a slab that carries
+//@ # extra data (every root slab does), hence in none of the leaves under construction
+//@ functype ArrayElementProvider() (v, err)
+//@   ensures !(is(valueRoot(v), *ArrayDataSlab) && as(valueRoot(v), *ArrayDataSlab).extraData == nil)
+//@   ensures valueRoot(v) == nil || allocated(valueRoot(v))
+//@   modifies alloc
+
+//@ func (a *ArrayDataSlab) SetExtraData(extraData)  serves C06
+//@   ensures a.extraData == extraData
+//@   modifies a.extraData, ghost.touched
+//@ func (a *ArrayMetaDataSlab) SetExtraData(extraData)  serves C06
+//@   ensures a.extraData == extraData
+//@   modifies a.extraData, ghost.touched
+
+//@ pred batchLeaf(d *ArrayDataSlab) = plainADS(d) && !allocatedBefore(d) && d.header.size <= targetThreshold + maxInlineArrayElementSize
+
+//@ func NewArrayFromBatchData(storage, address, typeInfo, fn) (a, err)  serves C05 C06 C17
+//@   requires storage != nil && fn != nil
+//@   assume (forall st Storable :: bs(st) >= 1) because "A4: a storable occupies at least one byte"
+//@   exit err == nil && is(root, *ArrayDataSlab) ==> wfADS(as(root, *ArrayDataSlab)) && as(root, *ArrayDataSlab).extraData != nil && !as(root, *ArrayDataSlab).inlined
+//@   ensures err == nil ==> a != nil && a.Storage == storage && a.root != nil
+//@   ensures err != nil ==> a == nil
+//@   modifies heap, ghost.sto, ghost.stored, ghost.touched, alloc
+//@   loop 1: invariant dataSlab != nil && wfADS(dataSlab) && !dataSlab.inlined && dataSlab.extraData == nil
+//@   loop 1: invariant elemsFit(dataSlab)
+//@   loop 1: invariant !allocatedBefore(dataSlab) && dataSlab.header.size <= targetThreshold + maxInlineArrayElementSize
+//@   loop 1: invariant (forall k :: 0 <= k && k < len(slabs) ==> slabs[k] != nil && is(slabs[k], *ArrayDataSlab) && slabs[k] != dataSlab && !allocatedBefore(slabs[k]))
+//@   loop 1: invariant (forall k :: 0 <= k && k < len(slabs) ==> plainADS(as(slabs[k], *ArrayDataSlab)) &&
+//@             as(slabs[k], *ArrayDataSlab).header.size <= targetThreshold + maxInlineArrayElementSize && as(slabs[k], *ArrayDataSlab).header.size >= targetThreshold)
+//@   loop 1: invariant (forall j, k :: 0 <= j && j < k && k < len(slabs) ==> slabs[j] != slabs[k])
+
+//@ iface ArraySlab.Header() (h)
+//@   ensures h == hdrOf(recv)
+//@   pure
+
+//@ pred maxHdrs() = (maxThreshold - 12) / 14
+
+//@ # one level up: consecutive runs of children are packed into fresh index slabs, each full except possibly the last, each locally
+//@ # well-formed (cumulative counts, own count and size) and within the slab size limit
+//@ func nextLevelArraySlabs(storage, address, slabs) (r, err)  serves C01 C05 C06 C17
+//@   requires storage != nil && len(slabs) >= 1 && (forall k :: 0 <= k && k < len(slabs) ==> isArr(slabs[k]))
+//@   ensures err == nil ==> len(r) >= 1 && len(r) <= len(slabs)
+//@   ensures err == nil ==> (forall k :: 0 <= k && k < len(r) ==> r[k] != nil && is(r[k], *ArrayMetaDataSlab) && !allocatedBefore(r[k]))
+//@   ensures[C01 C06] err == nil ==> (forall k :: 0 <= k && k < len(r) ==> wfMeta0(as(r[k], *ArrayMetaDataSlab)) && as(r[k], *ArrayMetaDataSlab).extraData == nil)
+//@   ensures[C05 C17] err == nil ==> (forall k :: 0 <= k && k < len(r) ==> len(as(r[k], *ArrayMetaDataSlab).childrenHeaders) <= maxHdrs() && as(r[k], *ArrayMetaDataSlab).header.size <= maxThreshold) &&
+//@        (forall k :: 0 <= k && k < len(r) - 1 ==> len(as(r[k], *ArrayMetaDataSlab).childrenHeaders) == maxHdrs())
+//@   ensures err == nil ==> (forall j, k :: 0 <= j && j < k && k < len(r) ==> r[j] != r[k])
+//@   ensures err != nil ==> len(r) == 0
+//@   modifies ghost.touched, alloc
+//@   loop 1: invariant 0 <= nextLevelSlabsIndex && len(slabs) == len(old(slabs)) && maxNumberOfHeadersInMetaSlab == maxHdrs()
+//@   loop 1: invariant metaSlab != nil && !allocatedBefore(metaSlab) && metaSlab.extraData == nil && len(metaSlab.childrenHeaders) == len(metaSlab.childrenCountSum) &&
+//@        metaSlab.header.size == 12 + 14 * len(metaSlab.childrenHeaders) && len(metaSlab.childrenHeaders) <= maxHdrs()
+//@   loop 1: invariant (i >= 1 ==> len(metaSlab.childrenHeaders) >= 1) && nextLevelSlabsIndex + ite(len(metaSlab.childrenHeaders) >= 1, 1, 0) <= i
+//@   loop 1: invariant metaSlab.header.count == ite(len(metaSlab.childrenHeaders) == 0, 0, metaSlab.childrenCountSum[len(metaSlab.childrenHeaders) - 1])
+//@   loop 1: invariant len(metaSlab.childrenHeaders) >= 1 ==> metaSlab.childrenCountSum[0] == metaSlab.childrenHeaders[0].count
+//@   loop 1: invariant (forall k :: 1 <= k && k < len(metaSlab.childrenHeaders) ==> metaSlab.childrenCountSum[k] == metaSlab.childrenCountSum[k - 1] + metaSlab.childrenHeaders[k].count)
+//@   loop 1: invariant (forall k :: i <= k && k < len(slabs) ==> slabs[k] == old(slabs)[k])
+//@   loop 1: invariant oldeq(ArrayMetaDataSlab.header) && oldeq(ArrayMetaDataSlab.childrenHeaders) && oldeq(ArrayMetaDataSlab.childrenCountSum) && oldeq(ArrayMetaDataSlab.extraData)
+//@   loop 1: invariant (forall k :: 0 <= k && k < nextLevelSlabsIndex ==> slabs[k] != nil && is(slabs[k], *ArrayMetaDataSlab) && !allocatedBefore(slabs[k]) && slabs[k] != metaSlab)
+//@   loop 1: invariant (forall k :: 0 <= k && k < nextLevelSlabsIndex ==> wfMeta0(as(slabs[k], *ArrayMetaDataSlab)) && as(slabs[k], *ArrayMetaDataSlab).extraData == nil &&
+//@        len(as(slabs[k], *ArrayMetaDataSlab).childrenHeaders) == maxHdrs() && as(slabs[k], *ArrayMetaDataSlab).header.size <= maxThreshold)
+//@   loop 1: invariant (forall j, k :: 0 <= j && j < k && k < nextLevelSlabsIndex ==> slabs[j] != slabs[k])
